@@ -568,7 +568,7 @@ func (x *Explorer) callLevel(st *State, site ssa.CallInstruction, cc *ssa.CallCo
 		st.add(ECallStarter)
 		x.L.Event(x, st, &Event{Kind: EvEffect, Eff: ECallStarter, Instr: site, Callee: callee})
 	}
-	if cl.Has(EFsWObj) && !cl.Has(EIdxWLive) && !cl.Has(EDelPend) {
+	if cl.Has(EFsWObj) && !cl.Has(EErrUnique) && !cl.Has(EDelPend) && !cl.Has(EDelUnk) {
 		st.add(ECallWriteObj)
 		x.L.Event(x, st, &Event{Kind: EvEffect, Eff: ECallWriteObj, Instr: site, Callee: callee})
 	}
